@@ -205,6 +205,40 @@ def run_case(c, rng):
                     c.violate('failed_step_not_warned', '%s: error_code set but no warning' % label, sample=sample)
             check_shape(c, wn, tr.results, sample, label, failed=failed)
             compare_prefix(c, tr.results, R0, label, dict(sample=sample), full=not failed)
+    if side.random() < 0.5:
+        time_limit_runs(c, wn, side, sample)
+
+
+def time_limit_runs(c, wn, rng, sample):
+    """The Newton solver's public TIME_LIMIT option: a solve that is cut off by the clock is a step that could not be solved."""
+    for ce in (False, True):
+        wn.reset_initial_values()
+        tr = simobs.run_wntr(wn, deep=False, solver_options={'TIME_LIMIT': rng.choice([0.0, 1e-9])}, convergence_error=ce)
+        label = 'TIME_LIMIT ~ 0, convergence_error=%s' % ce
+        unsolved = [sv for sv in tr.solves if sv['status'] != 1]
+        if not unsolved:
+            c.count('time_limit_not_hit_runs')       # every solve converged at once
+            if tr.exception is not None:
+                c.violate(classify_exc(tr), '%s: run_sim raised %s although every solve converged' % (label, type(tr.exception).__name__), traceback=tr.traceback, sample=sample)
+            continue
+        c.count('time_limit_hit_runs')
+        t_fail = unsolved[0]['t']
+        wit = dict(sample=sample, label=label, first_unsolved=unsolved[0])
+        if ce:
+            if not isinstance(tr.exception, RuntimeError):
+                c.violate('failed_step_not_raised', '%s: the solve at t = %s s returned status %s (%s) but %s' % (
+                    label, t_fail, unsolved[0]['status'], unsolved[0].get('msg'), 'run_sim returned normally' if tr.exception is None else 'raised %r' % (tr.exception,)), **wit)
+            continue
+        if tr.exception is not None:
+            c.violate(classify_exc(tr), '%s: run_sim raised %s: %s' % (label, type(tr.exception).__name__, str(tr.exception)[:200]), traceback=tr.traceback, sample=sample)
+            continue
+        check_failure_report(c, tr, False, sample, label)
+        check_shape(c, wn, tr.results, sample, label, failed=True)
+        late = [t_ for t_ in tr.results.node['head'].index if t_ >= t_fail]
+        if late:
+            c.violate('failed_step_reported', '%s: the solve at t = %s s was cut off by the time limit but times %s are reported' % (label, t_fail, late[:4]), **wit)
+        if len(tr.solves) > unsolved[0]['k'] + 1:
+            c.violate('run_continued_after_failure', '%s: %d more solves after the one that was cut off at t = %s s' % (label, len(tr.solves) - unsolved[0]['k'] - 1, t_fail), **wit)
 
 
 def classify_exc(tr):
